@@ -16,7 +16,9 @@ EXPLANATION = (
     'R12.3: every write_exact panics iff buf.len() != Self::size(): an unconditional enforce_outbuf_len::<T> with '
     'T::OutputSize = Self::OutputSize that precedes any write, or a whole-buffer copy_from_slice from a source of '
     'type-level length Self::OutputSize; to_bytes/size are not overridden. R12.4: decision tables of the two helpers. '
-    'R12.5: NIST public keys are encoded uncompressed. Not decided: from_bytes(to_bytes(x)) == x and canonicity of '
+    'R12.5: NIST public keys are encoded uncompressed. R12.6 value flow: from_bytes wraps exactly the input bytes (one '
+    'whole copy or the validating parser\'s Ok payload) and write_exact writes exactly the encoding of the wrapped value; '
+    'nothing is masked, truncated or rewritten inside this crate. Not decided: from_bytes(to_bytes(x)) == x and canonicity of '
     'the dependency encoders (numerical, inside the dependency crates).')
 TRUSTED = ['dependency encoders (dalek as_bytes/from, RustCrypto to_encoded_point/to_bytes/raw_secret_bytes) are lossless and canonical',
            'copy_from_slice panics exactly on length mismatch']
@@ -297,6 +299,79 @@ def check_write_exact(rep, facts, b, rule='R12.3'):
               'exactly one whole-buffer copy on every path (no partial write)', where(a))
 
 
+ENCODERS = ('as_bytes', 'to_bytes', 'raw_secret_bytes')     # lossless views/copies of the wrapped dependency value
+
+
+def check_value_flow(rep, facts, fb, we, rule='R12.6'):
+    """from_bytes wraps exactly the input bytes; write_exact writes exactly the wrapped value's bytes (no masking,
+    truncation or reordering in this crate; losslessness of the dependency encoders themselves is trusted)"""
+    n = 0
+    for b in fb:
+        a = get_an(facts, b.key)
+        fn = b.key
+        for s, tt, cls in ret_classes(a, facts):
+            if cls != 'ok':
+                continue
+            n += 1
+            pl = tt[3][0]
+            v = pl[3][0] if pl[0] == 'agg' and len(pl[3]) == 1 else ('unknown', 'shape')
+            how = None
+            x = v
+            if x[0] == 'call' and x[1] == 'core::convert::From::from' and len(x[2]) == 1:
+                x = x[2][0]
+                how = 'From::from of '
+            if x[0] == 'mem' and len(x[3]) == 1 and x[3][0][3] and not x[3][0][1] and x[3][0][2][0] == 'call' and \
+                    x[3][0][2][1].endswith('copy_from_slice') and x[3][0][2][2][1] == ('param', 1):
+                ok = True
+                how = (how or '') + 'a buffer written once by a whole copy of the input'
+            elif x[0] == 'okval':
+                y = x[1]
+                if y[0] == 'call' and y[1] == 'core::result::Result::map_err':
+                    y = y[2][0]
+                arg = y[2][0] if y[0] == 'call' and y[2] else None
+                ok = arg == ('param', 1) or (arg is not None and arg[0] == 'call' and arg[1] == 'core::convert::Into::into' and arg[2] == (('param', 1),))
+                how = 'Ok payload of %s applied to the whole input' % (y[1] if y[0] == 'call' else '?')
+            else:
+                ok = False
+                how = pp(v)[:160]
+            rep.check(ok, rule, fn, 'wraps-input-bytes', how, 'the accepted value is built from exactly the input bytes (one whole copy / the parser\'s Ok payload), nothing is masked or rewritten', where(a, s))
+    for b in we:
+        a = get_an(facts, b.key)
+        fn = b.key
+        cs = a.calls(lambda c: c['name'] == 'copy_from_slice')
+        if len(cs) != 1:
+            continue          # reported by R12.3
+        n += 1
+        bi = cs[0][0]
+        p = a.term_point(bi)
+        src = a.arg_val(bi, 1)
+        x = src
+        steps = []
+        okflow = False
+        for _ in range(6):
+            if x[0] == 'addr' and x[1][0] == 'local':
+                x = a.load(x[1], x[2], p)
+                continue
+            if x[0] == 'addr' and x[1] == ('pointee', ('param', 1)) and x[2] == (('f', '0'),):
+                okflow = True
+                break
+            if x[0] == 'call' and len(x[2]) >= 1:
+                nm = x[1].rsplit('::', 1)[-1]
+                if nm in ENCODERS or nm == 'as_affine' or (nm == 'to_encoded_point' and x[2][1:] == (('const', 'bool', False),)):
+                    steps.append(nm)
+                    p = a.term_point(x[3])
+                    x = x[2][0]
+                    continue
+            break
+        # the buffer is not touched afterwards
+        later = [c2['name'] for b2, t2, c2 in a.calls() if c2 and b2 != bi and bi in a.cfg.bwd(b2) and b2 != bi and
+                 any(a.arg_val(b2, i) == ('param', 2) for i in range(len(t2['args']))) and c2['name'] not in ('len',)]
+        stores = [st for st, pl in a.deref_stores if pl['l'] == 2]
+        rep.check(okflow and not later and not stores, rule, fn, 'writes-value-bytes', '%s(self.0) ; later uses of buf: %s ; direct stores: %d' % (' . '.join(reversed(steps)) or 'bytes of', later, len(stores)),
+                  'the buffer receives exactly the encoding of the wrapped value (self.0) and is not modified afterwards', where(a, a.term_point(bi)))
+    return n
+
+
 def check_enforce_outbuf_len(rep, facts, rule='R12.4'):
     a = get_an(facts, 'util::enforce_outbuf_len')
     if a is None:
@@ -370,6 +445,8 @@ def run(ctx):
         if a is None:
             rep.anchor_lost('R12.3', k, 'default body', 'not found')
     check_default_bodies(rep, facts)
+    n6 = check_value_flow(rep, facts, [b for b in fb if not b.impl_of['self_ty'].endswith('::EncappedKey')], we)
+    rep.floor('R12.6', 'value-flow obligations', n6, len(fb) - nkems + len(we))
     check_enforce_outbuf_len(rep, facts)
     a = get_an(facts, 'util::enforce_equal_len')
     if a is not None:
